@@ -278,7 +278,11 @@ func c05RandCmd(r *Rng) c05Cmd {
 	return c
 }
 
+// c05LastCrowd: the stock query whose words the last generated database has a crowd of entries for ("" if none)
+var c05LastCrowd string
+
 func c05GenDB(r *Rng, tier string) []c05Cmd {
+	c05LastCrowd = ""
 	var db []c05Cmd
 	for _, c := range c05Core {
 		if r.Chance(4, 5) {
@@ -296,6 +300,19 @@ func c05GenDB(r *Rng, tier string) []c05Cmd {
 			db = append(db, c05RandCmd(r))
 		}
 	}
+	if r.Chance(1, 6) {
+		// a crowd of entries sharing the words of one stock query: more candidates than the smallest re-rank
+		// window (10), so that answers for different limits are NOT prefixes of one another under NLP
+		cq := Pick(r, c05Queries[:8])
+		c05LastCrowd = cq
+		w := strings.Fields(cq)
+		for i, m := 0, r.Range(12, 22); i < m; i++ {
+			c := c05RandCmd(r)
+			c.Description = strings.Join(w, " ") + " " + c.Description
+			c.Plat = nil
+			db = append(db, c)
+		}
+	}
 	for i := len(db) - 1; i > 0; i-- {
 		j := r.Intn(i + 1)
 		db[i], db[j] = db[j], db[i]
@@ -305,7 +322,9 @@ func c05GenDB(r *Rng, tier string) []c05Cmd {
 
 func c05MutateDB(r *Rng, db []c05Cmd, tier string) []c05Cmd {
 	out := append([]c05Cmd{}, db...)
-	switch r.Intn(7) {
+	switch r.Intn(8) {
+	case 7: // replaced by the empty list (then usually refilled by a later update)
+		return nil
 	case 0: // identical content
 	case 1:
 		if len(out) > 0 {
@@ -630,6 +649,17 @@ func c05GenCacheLayer(r *Rng, tier string, idx int, args map[string]string) []st
 	}
 	// derived requests are remembered too (a delta is then repeated later)
 	pool := append([]c05Req{}, base...)
+	if cq := c05LastCrowd; cq != "" && !focusQuery {
+		// a ladder of limits for one NLP request with more candidates than the smallest re-rank window: the
+		// answers for different limits are not prefixes of one another, so no entry may serve two of them
+		o := c05BaseOpts(r, nan)
+		o.UseNLP, o.UseFuzzy, o.PipelineOnly, o.AllPlatforms, o.TopTermsCap = true, false, false, true, 0
+		for _, l := range [][]int{{10, 1, 3, 2, 10, 1}, {5, 2, 1, 0, 3}, {0, 1, 2, 10, 3}}[r.Intn(3)] {
+			o.Limit = l
+			ops = append(ops, c05SearchOp(r, "search", cq, o))
+		}
+		pool = append(pool, c05Req{cq, o})
+	}
 	n := r.Range(8, 40)
 	if tier == "thorough" {
 		n = r.Range(8, 120)
